@@ -42,6 +42,8 @@ def byteswap_bytearray(data: bytearray) -> bytes:
     """
     trim = len(data)
     last: bytes = bytes()
+    # swap a private copy, the caller's bytearray stays as it was handed in
+    data = bytearray(data)
     # add padding, that will get removed, to not have odd number of bytes
     if len(data) % 2 != 0:
         last = bytes([data[-1]])
